@@ -373,7 +373,13 @@ def _replay_chunk(idxs):
                         v.setdefault("detail", {})["observed_on"] = "long-lived object during replay validation"
                         viols.append(v)
             if sysm.live_canon(live) != canons[i]:
-                return count, viols, f"replay mismatch for history {jsonable(h)}: snapshot semantics differ from live object"
+                # the same history, executed on ONE long-lived object, ends in a different observable state than when every step
+                # starts from a freshly built object: the object carries something from call to call that changes what it does.
+                # On the unchanged library this never happens; it is reported as a violation (with the history), not as a
+                # harness problem.
+                viols.append(dict(check="long_lived_object_diverges", sig=dict(check="long_lived_object_diverges"),
+                                  msg="a history executed on one long-lived object ends in a different state than with a fresh object per step",
+                                  detail=dict(observed_on="long-lived object during replay validation"), hist=h))
             count += 1
     return count, viols, None
 
@@ -427,6 +433,13 @@ def replay_doc(make_sys, doc):
     for _ in range(2):
         sysm = make_sys()
         found, snap, model = run_history(sysm, doc["history"])
+        if doc["check"] == "long_lived_object_diverges" and snap is not None and hasattr(sysm, "live_new"):
+            hist = [unjson(e) for e in doc["history"]]
+            live = sysm.live_new(hist[0][1])
+            for ev in hist[1:]:
+                sysm.live_apply(live, ev)
+            if sysm.live_canon(live) != sysm.canon(snap):
+                found.append("long_lived_object_diverges")
         if doc["check"] == "model_merge" and snap is not None:
             other = (doc.get("detail") or {}).get("other_hist")
             if other:
